@@ -1,5 +1,5 @@
 SPECIFICATION Spec
-CONSTANTS Pfx = {"A", "B"} MaxHops = 2 MaxCid = 2 QCap = 100 MaxDepth = 5 LeakDetached = FALSE AnyState = FALSE MaxInst = 2 Lifecycle = FALSE UnloadClears = FALSE CandInit = {TRUE, FALSE} CloseWays = {"closeR", "remove"} ReasonDecides = FALSE ReadyInit = FALSE
+CONSTANTS Pfx = {"A", "B"} MaxHops = 2 MaxCid = 2 QCap = 100 MaxDepth = 5 LeakDetached = FALSE AnyState = FALSE MaxInst = 2 Lifecycle = FALSE UnloadClears = FALSE CandInit = {TRUE, FALSE} CloseWays = {"remove"} ReasonDecides = FALSE ReadyInit = FALSE Expiry = FALSE
 INVARIANT TypeOK
 INVARIANT NoRawForAnon
 INVARIANT TunnelledOnlyOverReadyRightCircuit
